@@ -106,13 +106,16 @@ def _run(cmd):
     return r.returncode, r.stdout, cmd
 
 
-def _prune(keep=14):
+def _prune(keep=40):
     try:
         ents = [(os.path.getmtime(os.path.join(BUILD_ROOT, d)), d) for d in os.listdir(BUILD_ROOT)]
     except FileNotFoundError:
         return
     ents.sort(reverse=True)
-    for _, d in ents[keep:]:
+    now = time.time()
+    for mt, d in ents[keep:]:
+        if now - mt < 3 * 3600:
+            continue        # possibly in use by a running check
         shutil.rmtree(os.path.join(BUILD_ROOT, d), ignore_errors=True)
 
 
